@@ -490,6 +490,12 @@ def run_dm2(ctx, st):
     s1 = {'lp': 111}
     out = OsLogEvent.parse_decomposed({'pc': 2, 's': 0, 'seg': [s0, s1]}, dict(STRINGS))
     ctx.check('C16/message/segments-in-order', [s.get('literal_prefix') for s in out.get('segments', [])] == [STRINGS[110], STRINGS[111]])
+    # more segments than placeholders (a message that ends in literal text), and fewer
+    for pc in (1,):         # (a count of 0 means 'no segment list' to the tool: not judged)
+        o = OsLogEvent.parse_decomposed({'pc': pc, 's': 0, 'seg': [{'lp': 110}, {'lp': 111}]}, dict(STRINGS))
+        ctx.check('C16/message/all-segments-whatever-the-placeholder-count',
+                  o.get('placeholder_count') == pc and [s.get('literal_prefix') for s in o.get('segments', [])] == [STRINGS[110], STRINGS[111]],
+                  'pc=%d: %r' % (pc, o))
     out0 = OsLogEvent.parse_decomposed({'pc': 0, 's': 7}, dict(STRINGS))
     ctx.check('C16/message/no-placeholders', out0 == {'placeholder_count': 0, 'state': 7})
     ctx.reach()
